@@ -18,6 +18,7 @@ pub fn info() -> PropInfo {
             "library randomness (salts, decoys, ECDSA nonces) is not controlled; the oracle does not depend on it",
         ],
         needs_mock: false,
+        rounds: 2,
     }
 }
 
